@@ -1,19 +1,27 @@
 ------------------------------ MODULE Trace_C02 -----------------------------
 (* (T) for C02: recorded bounding boxes and touched point sets vs P_C02.      *)
-EXTENDS TraceBase, P_C02
-VARIABLE l
-Init == l = 1
-StepCase(e)  == e.ev = "case"
-StepDraw(e)  == e.ev = "draw" /\
+EXTENDS TraceBase, P_C02, EGLine
+VARIABLES l, cur      \* cur = descriptor of the current case (for the drift comparison)
+Init == l = 1 /\ cur = [d |-> [kind |-> "none"]]
+StepCase(e)  == e.ev = "case" /\ cur' = e.desc
+\* DRIFT: the styled bounding box of a stroked Line vs the transcribed Line::extents (EGLine!LineStyledBoxT), which
+\* MC_C17 proves to contain every point of the ThickPoints machine (ThickInsideStyledBox)
+IsSmallLine == /\ "d" \in DOMAIN cur /\ "kind" \in DOMAIN cur.d /\ cur.d.kind = "prim" /\ "shape" \in DOMAIN cur.d
+               /\ cur.d.shape.k = "line" /\ DOMAIN cur.d = {"kind", "shape", "style"}
+               /\ \A v \in {cur.d.shape.s[1], cur.d.shape.s[2], cur.d.shape.e[1], cur.d.shape.e[2]} : v >= -100 /\ v <= 100
+               /\ cur.d.style.w <= 24
+StepDraw(e)  == e.ev = "draw" /\ UNCHANGED cur /\
+  DriftReport(e.case, ~IsSmallLine \/ e.bbox = LineStyledBoxT(cur.d.shape.s, cur.d.shape.e, cur.d.style.w),
+              "line_styled_bounding_box_transcription", [shape |-> cur.d.shape, bbox |-> e.bbox]) /\
   LET f == DrawFails(e) IN
   Report(e.case, f, IF f = {} THEN <<>> ELSE [kind |-> e.kind, bbox |-> e.bbox, n |-> e.n, nout |-> Len(Outside(e)),
                                               firstout |-> IF Outside(e) = <<>> THEN <<>> ELSE Outside(e)[1]])
 \* a library call of this case panicked: the property promises a result for every input of its domain
-StepPanic(e) == e.ev = "panic" /\ Report(e.case, {"library_call_panicked"}, [msg |-> e.msg, loc |-> e.loc])
+StepPanic(e) == e.ev = "panic" /\ UNCHANGED cur /\ Report(e.case, {"library_call_panicked"}, [msg |-> e.msg, loc |-> e.loc])
 Next == /\ l <= NRec
         /\ LET e == Rec[l] IN StepCase(e) \/ StepDraw(e) \/ StepPanic(e)
         /\ l' = l + 1
-Spec == Init /\ [][Next]_l
+Spec == Init /\ [][Next]_<<l, cur>>
 Done == IF TLCGet("stats").diameter = NRec + 1
         THEN PrintT("TRACE-ACCEPTED " \o ToString(NRec))
         ELSE PrintT("TRACE-REJECTED at line " \o ToString(TLCGet("stats").diameter)) /\ FALSE
